@@ -45,7 +45,7 @@ PROPERTIES = {
     "C10": {"level": "proof", "trusted_base": _TB, "assumptions": ["EV", "LMDB"]},
     "C17": {"level": "proof", "trusted_base": _TB, "assumptions": ["A3", "GCSQL", "SQL"]},
     "C20": {"level": "proof", "trusted_base": _TB, "assumptions": ["TCP", "A4", "EV"]},
-    "C01": {"level": "proof", "trusted_base": _TB, "assumptions": ["REPL", "SQL"]},
+    "C01": {"level": "proof", "trusted_base": _TB, "assumptions": ["REPL", "REPR", "INDUCT-ATOMS", "SQL", "ENUM", "LMDBSTUB"], "extra_checks": [query_enum_check("C01")]},
     "C04": {"level": "proof", "trusted_base": _TB, "assumptions": ["EV", "ENC", "JSON", "SQL"]},
     "C03": {"level": "proof", "trusted_base": _TB, "assumptions": ["EV", "SQL", "JSON"]},
     "C05": {"level": "proof", "trusted_base": _TB, "assumptions": ["EV", "A4"]},
